@@ -512,9 +512,15 @@ func children(n ast.Node, f func(ast.Node)) {
 // ---------- CDC-1/2/3 ----------
 
 func ruleCDC123(w *World, r *Report, only map[string]bool) {
-	r.Doc("CDC-1", "command names written by FormatCommand call sites = names handled by the replay switch", 11)
-	r.Doc("CDC-2", "every written arity satisfies the replay arm's length guard; every cmd.Args[i] in an arm is below the established length", 30)
-	r.Doc("CDC-3", "VCREATE option keys written ⊆ keys parsed; all VCREATE writers write the same key set and each is paired with a VCONFIG writer", 4)
+	f1, f2, f3 := 11, 30, 4
+	if only != nil {
+		f1, f2, f3 = 2*len(only), 4*len(only), 0
+	}
+	r.Doc("CDC-1", "command names written by FormatCommand call sites = names handled by the replay switch", f1)
+	r.Doc("CDC-2", "every written arity satisfies the replay arm's length guard; every cmd.Args[i] in an arm is below the established length", f2)
+	if only == nil || only["VCREATE"] {
+		r.Doc("CDC-3", "VCREATE option keys written ⊆ keys parsed; all VCREATE writers write the same key set and each is paired with a VCONFIG writer", f3)
+	}
 	ws := w.writerSites(r, "CDC-1")
 	rt := w.readerTable(r, "CDC-1")
 	if rt == nil {
@@ -611,7 +617,11 @@ func ruleCDC123(w *World, r *Report, only map[string]bool) {
 // ---------- CDC-4 nil marker ----------
 
 func ruleCDC4(w *World, r *Report, only map[string]bool) {
-	r.Doc("CDC-4", "a nil argument ($-1) is either never written (no may-be-nil value reaches FormatCommand) or accepted by ParseCommand", 10)
+	f4 := 10
+	if only != nil {
+		f4 = 2
+	}
+	r.Doc("CDC-4", "a nil argument ($-1) is either never written (no may-be-nil value reaches FormatCommand) or accepted by ParseCommand", f4)
 	pc := w.Func("pkg/persistence", "ParseCommand")
 	fc := w.formatCommandObj()
 	if pc == nil || fc == nil {
